@@ -6,12 +6,15 @@
 package c16
 
 import (
+	"bufio"
 	"bytes"
 	"encoding/csv"
 	"encoding/json"
+	"errors"
 	"fmt"
 	"io"
 	"strings"
+	"sync"
 	"unicode/utf8"
 
 	"github.com/go-openapi/runtime"
@@ -26,6 +29,9 @@ func init() {
 		Race:  true,
 		Rule: "a group = one CSV text drawn from a grammar (plain/quoted fields, embedded separators, line breaks and quotes, empty fields, blank lines, ragged rows, comment lines, CR LF endings, missing final newline, and malformed quoting) + one option set (reader comma, comment, lazy quotes, trim, fields per record, reuse record; writer comma, CRLF; skipped lines 0..records+2; closing option); " +
 			"every group is pushed through EVERY destination kind of the consumer (record kinds and byte kinds; record tables fresh, pre-populated shorter / equal / longer / with spare capacity, typed-nil; kinds the codec does not document) and EVERY source kind of the producer (text kinds and record-table kinds), each on a scripted stream (1-byte / random chunks, <= 50 zero-length reads, data with EOF, fault at an offset; for some consumes a reader without Close or a *bytes.Buffer / *bytes.Reader / *strings.Reader), some with earlier and later calls on the same codec instance; one text in 40 has 120..320 records (4..12 KiB). " +
+			"one produce in 4 writes into the caller's own *bufio.Writer (4096 bytes, which encoding/csv adopts as its buffer, or 16 bytes) over the scripted sink or into a *bytes.Buffer; a CSVReader source that hands out one reused slice; " +
+			"one group in 20 makes every call while two other goroutines use the SAME codec instance with their own texts and objects (joined with a WaitGroup, each judged against its own reference; the race detector watches); " +
+			"caller-set LazyQuotes / TrimLeadingSpace / ReuseRecord on a *csv.Reader source and UseCRLF on a *csv.Writer destination (outcome must be that of one of the two readings; classed); one group in 8 also calls with no reader, no writer, no data and a typed-nil pointer source. " +
 			"expectation = encoding/csv itself with the same options, so all kinds are compared with one reference and therefore with one another. " +
 			"non-trivial = every executed case; distinct by (text feature set, direction, kind, destination pre-state, option set, stream class)",
 		Assumptions: []string{
@@ -33,7 +39,7 @@ func init() {
 			"an unset option (zero rune, zero fields-per-record) means the encoding/csv default, as the codec documents",
 			"record-table and CSVReader sources carry the records that the reference parse of the group's text yields; groups whose text does not parse are not run through those kinds",
 			"CSVWriter destinations are judged on the records passed to Write (copied at the time of the call, as csv.Writer does); aliasing is judged for record-table destinations, which the codec fills itself, and for a second CSVWriter kind that keeps the very slices it is handed -- except with the reuse-record option, which means precisely that a slice handed to Write is valid during the call only (that combination is not generated and not judged)",
-			"typed-nil SOURCES and nil readers/writers are not generated (the no-panic clause names destination state and options)",
+			"a nil reader, a nil writer and nil data must be answered with an error - not a panic, not nil - and leave destination and writer untouched (nothing can be parsed or written; the codec documents these refusals). Typed-nil pointer SOURCES are outside the no-panic clause (it names destination state and options): they are probed and classed (probe:typed-nil-source/...), not judged",
 			"whether the stream is closed is recorded, not judged (the statement has no closing clause); a stream or closable source that is still used after the codec closed it is a violation (a closed file or HTTP body fails, so records are lost): scripted streams fail once closed",
 			"a failure of the destination's or source's own methods (CSVWriter.Write / Error, io.ReaderFrom, encoding.BinaryUnmarshaler, CSVReader.Read, encoding.BinaryMarshaler) must surface as an error, like a stream fault",
 			"'the parser's error instead of partial success': after the parser's error a destination the codec fills in one piece (record tables, *[]byte, *string and their named forms) must not hold anything new; streaming destinations (writers, CSVWriter) necessarily received the records before the malformed one",
@@ -42,7 +48,12 @@ func init() {
 			"a scripted read or write fault must surface as an error (a shorter success would be 'records delivered != parse of the input'); which error is not judged",
 			"for malformed input the error must be the reference parser's error (same text); this includes the io.WriterTo source (whose pipe used to surface 'io: read/write on closed pipe' from the writing side first: repaired defect)",
 			"destination kinds the codec does not document must not panic and must not report success while dropping records",
-			"a *csv.Reader source / *csv.Writer destination may come with the caller's own separator, comment rune or fields-per-record (reader) / separator (writer) while the codec has no option of that name: the object's setting is then the dialect of the 'standard CSV parse' (writer: of the bytes written). Lazy quotes, trimmed space, record reuse and CRLF are not pre-set on the object (the codec sets them unconditionally from its options: decision pending), and a setting both on the object and in the codec options is not generated",
+			"a *csv.Reader source / *csv.Writer destination may come with the caller's own separator, comment rune or fields-per-record (reader) / separator (writer) while the codec has no option of that name: the object's setting is then the dialect of the 'standard CSV parse' (writer: of the bytes written). a setting both on the object and in the codec options is not generated",
+			"caller-set BOOLEAN settings (LazyQuotes, TrimLeadingSpace, ReuseRecord on a *csv.Reader source; UseCRLF on a *csv.Writer destination) with the codec option of that name unset: the statement does not say whether the object's 'true' or the codec option's 'false' is the dialect (a boolean option has no 'unset'), so the outcome must be exactly what encoding/csv yields under ONE of the two readings (per boolean); which one is classed as probe:caller-set-boolean/... for triage, and whether the codec rewrote the field of the caller's object is classed too. Where the readings agree on the text the case is judged as usual",
+			"'the parser's error' is judged by identity as well as by text: when the reference error is a *csv.ParseError the codec's error must satisfy errors.As for *csv.ParseError with the same StartLine, Line and Column, and errors.Is for its cause (csv.ErrBareQuote, csv.ErrQuote, csv.ErrFieldCount)",
+			"'instead of partial success' on the produce side: a source the codec holds in memory as a whole (encoding.BinaryMarshaler, []byte, string, their named and pointer forms) is known to be malformed before anything is written, so next to the parser's error the writer must have received nothing; for streaming sources (readers, *csv.Reader, io.WriterTo) what was written before the malformed record is classed, not judged",
+			"a caller's own *bufio.Writer is flushed by the harness (as its owner would) after Produce returned and before the bytes are judged; whether the codec had flushed it already is classed. A sink fault that is only met by that flush is not the codec's to report",
+			"one codec instance used by several goroutines at once is outside the statement's quantifier (no schedules); it is exercised because servers share one consumer / producer per media type: each goroutine's outcome is judged against its own reference with a reduced oracle (outcome class, error text, records / bytes), and data races are reported by the race detector",
 			"io.ReaderFrom and encoding.BinaryUnmarshaler destinations are filled in one piece too: after the parser's error their method must not have been called",
 		},
 		MinNontrivial: 500,
@@ -196,6 +207,13 @@ type Case struct {
 	// The codec option of the same name is then left unset: the object's own setting is the dialect of that
 	// source / destination.
 	Obj *ObjOpts `json:"obj,omitempty"`
+	// WK: the writer handed to Produce. "" = the scripted io.WriteCloser; "bufio" / "bufio16" = a *bufio.Writer of
+	// 4096 / 16 bytes over the scripted sink (csv.NewWriter adopts a *bufio.Writer of 4096 bytes or more as its own
+	// buffer); "bytes.Buffer" = a *bytes.Buffer (the script S does not apply); "nil" = no writer at all.
+	WK string `json:"wk,omitempty"`
+	// Conc > 1: the judged call is made while Conc-1 other goroutines use the SAME codec instance (their own
+	// texts, their own streams and destinations / sources), each judged against its own reference.
+	Conc int `json:"conc,omitempty"`
 }
 
 // ObjOpts are settings made on a caller-supplied *csv.Reader / *csv.Writer.
@@ -203,6 +221,13 @@ type ObjOpts struct {
 	Comma   string `json:"comma,omitempty"`
 	Comment string `json:"comment,omitempty"`
 	FPR     int    `json:"fields_per_record,omitempty"`
+	// the boolean settings: LazyQuotes, TrimLeadingSpace, ReuseRecord of a *csv.Reader, UseCRLF of a *csv.Writer.
+	// Whether such a setting of the caller's object or the codec's (unset, hence false) option is the dialect is not
+	// in the statement: the outcome must be that of ONE of the two readings and is classed (probe), see objReadings.
+	Lazy  bool `json:"lazy_quotes,omitempty"`
+	Trim  bool `json:"trim_leading_space,omitempty"`
+	Reuse bool `json:"reuse_record,omitempty"`
+	CRLF  bool `json:"use_crlf,omitempty"`
 }
 
 // refOpts returns the option set the reference parse and the reference writer work with: the codec options,
@@ -227,6 +252,8 @@ func (c *Case) refOpts() (o Opts, ok bool) {
 		if c.Obj.FPR != 0 {
 			o.FPR = c.Obj.FPR
 		}
+		o.Lazy = o.Lazy || c.Obj.Lazy
+		o.Trim = o.Trim || c.Obj.Trim
 	case c.Dir == "consume" && c.Kind == "*csv.Writer":
 		if c.Obj.Comma != "" && o.WComma != "" {
 			return o, false
@@ -234,12 +261,170 @@ func (c *Case) refOpts() (o Opts, ok bool) {
 		if c.Obj.Comma != "" {
 			o.WComma = c.Obj.Comma
 		}
+		o.CRLF = o.CRLF || c.Obj.CRLF
 	}
 	return o, true
 }
 
 func (c *Case) objSet() bool {
-	return c.Obj != nil && (c.Obj.Comma != "" || c.Obj.Comment != "" || c.Obj.FPR != 0) && (c.Kind == "*csv.Reader" || c.Kind == "*csv.Writer")
+	return c.Obj != nil && (c.Obj.Comma != "" || c.Obj.Comment != "" || c.Obj.FPR != 0 || c.Obj.Lazy || c.Obj.Trim || c.Obj.Reuse || c.Obj.CRLF) && (c.Kind == "*csv.Reader" || c.Kind == "*csv.Writer")
+}
+
+// objBools: the caller made a boolean setting on its own reader / writer object.
+func (c *Case) objBools() bool {
+	if c.Obj == nil {
+		return false
+	}
+	switch {
+	case c.Dir == "produce" && c.Kind == "*csv.Reader":
+		return c.Obj.Lazy || c.Obj.Trim || c.Obj.Reuse
+	case c.Dir == "consume" && c.Kind == "*csv.Writer":
+		return c.Obj.CRLF
+	}
+	return false
+}
+
+// reading is one way to read a case whose caller set booleans on its own object: the option set the reference works
+// with, and which of those settings it honours.
+type reading struct {
+	o     Opts
+	label string
+}
+
+// objReadings lists the readings of a case with caller-set booleans: every subset of them honoured (the first
+// reading honours all, the last none: there the codec's own, unset option rules). ReuseRecord changes no parse.
+func (c *Case) objReadings(ropts Opts) []reading {
+	type bit struct {
+		name string
+		set  func(o *Opts, v bool)
+	}
+	var bits []bit
+	switch {
+	case c.Dir == "produce" && c.Kind == "*csv.Reader":
+		if c.Obj.Lazy && !c.Opts.Lazy {
+			bits = append(bits, bit{"lazy-quotes", func(o *Opts, v bool) { o.Lazy = v }})
+		}
+		if c.Obj.Trim && !c.Opts.Trim {
+			bits = append(bits, bit{"trim-leading-space", func(o *Opts, v bool) { o.Trim = v }})
+		}
+	case c.Dir == "consume" && c.Kind == "*csv.Writer":
+		if c.Obj.CRLF && !c.Opts.CRLF {
+			bits = append(bits, bit{"use-crlf", func(o *Opts, v bool) { o.CRLF = v }})
+		}
+	}
+	var out []reading
+	for mask := (1 << len(bits)) - 1; mask >= 0; mask-- {
+		o := ropts
+		var l []string
+		for i, b := range bits {
+			on := mask&(1<<i) != 0
+			b.set(&o, on)
+			if on {
+				l = append(l, b.name+"=kept")
+			} else {
+				l = append(l, b.name+"=overridden-by-the-codec")
+			}
+		}
+		out = append(out, reading{o, strings.Join(l, "+")})
+	}
+	return out
+}
+
+// outcome is what the reference yields for a text under one option set: the bytes written, the parser's error, or
+// (invalid writer options next to a parse error or to records to write) some error.
+type outcome struct {
+	kind    string // bytes | parse-error | any-error
+	errText string
+	b       []byte
+}
+
+func refOutcome(text string, o Opts, skip int) outcome {
+	recs, perr := refParse(text, o, true)
+	if perr != nil {
+		if writerOptionsInvalid(o) {
+			return outcome{kind: "any-error"}
+		}
+		return outcome{kind: "parse-error", errText: perr.Error()}
+	}
+	b, werr := refWrite(skipRecs(recs, skip), o, true)
+	if werr != nil {
+		return outcome{kind: "any-error"}
+	}
+	return outcome{kind: "bytes", b: b}
+}
+
+func (x outcome) equal(y outcome) bool {
+	return x.kind == y.kind && x.errText == y.errText && bytes.Equal(x.b, y.b)
+}
+
+func (x outcome) matches(got []byte, err error) bool {
+	switch x.kind {
+	case "bytes":
+		return err == nil && bytes.Equal(got, x.b)
+	case "parse-error":
+		return err != nil && err.Error() == x.errText
+	}
+	return err != nil
+}
+
+func (x outcome) String() string {
+	switch x.kind {
+	case "bytes":
+		return "bytes " + short(x.b)
+	case "parse-error":
+		return fmt.Sprintf("the parser's error %q", x.errText)
+	}
+	return "an error"
+}
+
+// probeObjBools handles a case whose caller set booleans on its own *csv.Reader / *csv.Writer and on whose text
+// the readings differ. done = the case was dealt with here (classed, or flagged when the outcome is that of no reading).
+func probeObjBools(m *mon.M, c *Case, ropts Opts, got []byte, err error, where string) (done bool) {
+	rs := c.objReadings(ropts)
+	if len(rs) < 2 {
+		return false
+	}
+	text := string(c.Text)
+	outs := make([]outcome, len(rs))
+	differ := false
+	for i, rd := range rs {
+		outs[i] = refOutcome(text, rd.o, c.Opts.Skip)
+		if i > 0 && !outs[i].equal(outs[0]) {
+			differ = true
+		}
+	}
+	if !differ {
+		m.Class("probe:caller-set-boolean/" + where + "/makes-no-difference-on-this-text")
+		return false
+	}
+	for i, rd := range rs {
+		if outs[i].matches(got, err) {
+			m.Class("probe:caller-set-boolean/" + where + "/" + rd.label)
+			return true
+		}
+	}
+	m.Violate("caller-set-boolean-outcome-of-no-reading/"+where, fmt.Sprintf("%s with a caller-configured object %+v: input %s options {%s}: the outcome (err=%s, bytes %s) is neither what encoding/csv yields with the object's own boolean settings (%s) nor with the codec's (%s)", where, *c.Obj, short([]byte(text)), c.Opts.set(), errText(err), short(got), outs[0], outs[len(outs)-1]), c)
+	return true
+}
+
+// sameParserError judges "the parser's error" by identity, not only by text: when the reference error is a
+// *csv.ParseError the codec's error must be one too (errors.As), with the same position, and wrap the same cause.
+func sameParserError(err, perr error) (bool, string) {
+	var want *csv.ParseError
+	if !errors.As(perr, &want) {
+		return true, ""
+	}
+	var got *csv.ParseError
+	if !errors.As(err, &got) {
+		return false, fmt.Sprintf("the error is a %T, which errors.As cannot turn into a *csv.ParseError", err)
+	}
+	if got.StartLine != want.StartLine || got.Line != want.Line || got.Column != want.Column {
+		return false, fmt.Sprintf("*csv.ParseError at start line %d, line %d, column %d; the reference says %d, %d, %d", got.StartLine, got.Line, got.Column, want.StartLine, want.Line, want.Column)
+	}
+	if want.Err != nil && !errors.Is(err, want.Err) {
+		return false, fmt.Sprintf("errors.Is(err, %q) is false", want.Err)
+	}
+	return true, ""
 }
 
 func textFeatures(t string) string {
@@ -288,6 +473,8 @@ func srcClass(kind string) string {
 		return "writer-to"
 	case kind == "csvreader":
 		return "csv-reader-interface"
+	case kind == "csvreader-reusing":
+		return "csv-reader-reusing-one-slice"
 	case kind == "[]named-record" || kind == "[][]named-field":
 		return "record-table-named-elements"
 	case isIn(srcTableKinds, kind):
@@ -427,6 +614,15 @@ func (c *Case) fp(pre string) string {
 	}
 	if c.objSet() {
 		pre += "+caller-configured-object"
+	}
+	if c.objBools() {
+		pre += "+caller-set-boolean"
+	}
+	if c.WK != "" {
+		pre += "+writer=" + c.WK
+	}
+	if c.Conc > 1 {
+		pre += "+concurrent"
 	}
 	return strings.Join([]string{textFeatures(string(c.Text)), c.Dir, c.Kind, pre, c.Opts.set(), c.S.class(len(c.Text)), c.O.class(len(c.Text))}, "|")
 }
@@ -629,6 +825,10 @@ func laterConsumes(m *mon.M, c *Case, cons runtime.Consumer, d dest, h held, dc 
 
 func runConsume(m *mon.M, c *Case) {
 	text := string(c.Text)
+	if c.RK == "nil" {
+		runConsumeNilReader(m, c)
+		return
+	}
 	ropts, judged := c.refOpts()
 	if !judged {
 		m.Class("not-judged:setting-made-on-the-object-and-named-by-a-codec-option")
@@ -659,11 +859,24 @@ func runConsume(m *mon.M, c *Case) {
 			m.Class("codec-instance-reused")
 		}
 	}
+	dc := destClass(c.Kind)
+	var join func() []compFinding
+	if c.Conc > 1 && !c.objBools() && !c.PreNil && dc != "undocumented-kind" {
+		var release func()
+		release, join = consumeCompanions(c, cons, ropts, c.Conc-1)
+		release()
+	}
 	var err error
 	pv, st := mon.Catch(func() { err = cons.Consume(rd, d.v) })
 	m.NT(c.fp(pre))
-	dc := destClass(c.Kind)
 	m.Class("consume/" + dc + "/" + pre)
+	if join != nil {
+		// the other goroutines that used the same codec instance meanwhile, each against its own reference
+		m.Class("concurrent-use/consume")
+		for _, f := range join() {
+			m.Violate("concurrent-use/consume/"+dc+"/"+f.kind, fmt.Sprintf("CSVConsumer into %s, options {%s}, one codec instance used by %d goroutines at once (each with its own reader and destination): %s", c.Kind, c.Opts.set(), c.Conc, f.detail), c)
+		}
+	}
 	if c.objSet() {
 		m.Class("consume/caller-configured-csv.Writer")
 	}
@@ -734,6 +947,15 @@ func runConsume(m *mon.M, c *Case) {
 		}
 		return
 	}
+	if c.objBools() && d.bytes != nil && documented {
+		m.Class("consume/caller-set-boolean-on-csv.Writer")
+		if d.csvw != nil && d.csvw.UseCRLF != c.Obj.CRLF {
+			m.Class("probe:caller-object-field-rewritten/csv.Writer.UseCRLF")
+		}
+		if probeObjBools(m, c, ropts, d.bytes(), err, "consume/csv.Writer") {
+			return
+		}
+	}
 	if d.bytes != nil && writerOptionsInvalid(ropts) {
 		// encoding/csv's writer rejects these options as soon as one record is written: with a
 		// malformed input either error may come first, so only the presence of an error is judged
@@ -755,6 +977,9 @@ func runConsume(m *mon.M, c *Case) {
 			m.Violate("malformed-accepted/consume/"+dc, fmt.Sprintf("CSVConsumer into %s: input %s options {%s}: encoding/csv says %q, the consumer returned nil", c.Kind, short([]byte(text)), c.Opts.set(), perr), c)
 		} else if err.Error() != perr.Error() {
 			m.Violate("not-the-parser-error/consume/"+dc, fmt.Sprintf("CSVConsumer into %s: input %s options {%s}: encoding/csv says %q, the consumer says %q", c.Kind, short([]byte(text)), c.Opts.set(), perr, err), c)
+		} else if same, why := sameParserError(err, perr); !same {
+			// the text of the parser's error, but not the parser's error: callers tell it with errors.As / errors.Is
+			m.Violate("parser-error-identity-lost/consume/"+dc, fmt.Sprintf("CSVConsumer into %s: input %s options {%s}: the error reads %q like the parser's, but %s", c.Kind, short([]byte(text)), c.Opts.set(), err, why), c)
 		} else if d.calls != nil && (d.calls() > 0 || len(d.bytes()) > 0) {
 			// io.ReaderFrom / encoding.BinaryUnmarshaler destinations are filled in one piece from the codec's own
 			// buffer: next to the parser's error they must have been handed nothing
@@ -962,12 +1187,12 @@ func upperRecs(recs [][]string) [][]string {
 }
 
 // laterProduces makes the calls that follow the judged one and reads again what the judged call wrote.
-func laterProduces(m *mon.M, c *Case, prod runtime.Producer, w *sWriter, table [][]string, sc string) bool {
+func laterProduces(m *mon.M, c *Case, prod runtime.Producer, w *sWriter, out func() []byte, table [][]string, sc string) bool {
 	if c.Post <= 0 {
 		return true
 	}
 	text := string(c.Text)
-	written, writes := append([]byte(nil), w.buf...), w.writes
+	written, writes := append([]byte(nil), out()...), w.writes
 	if ps, ok := mkSource(c.Kind, []byte(laterText(text)), upperRecs(table), Script{}); ok {
 		_, _ = mon.Catch(func() { _ = prod.Produce(newWriter(Script{}), ps.v) })
 	}
@@ -975,15 +1200,43 @@ func laterProduces(m *mon.M, c *Case, prod runtime.Producer, w *sWriter, table [
 		_, _ = mon.Catch(func() { _ = runtime.CSVProducer().Produce(newWriter(Script{}), []byte(unrelatedText(len(text)))) })
 	}
 	m.Class("later-calls-made")
-	if !bytes.Equal(w.buf, written) || w.writes != writes {
-		m.Violate("written-result-altered-by-later-call/produce/"+sc, fmt.Sprintf("CSVProducer from %s: input %s options {%s}: the judged call wrote %s in %d writes; after %d later call(s) on other writers the same writer holds %s after %d writes", c.Kind, short([]byte(text)), c.Opts.set(), short(written), writes, c.Post, short(w.buf), w.writes), c)
+	if !bytes.Equal(out(), written) || w.writes != writes {
+		m.Violate("written-result-altered-by-later-call/produce/"+sc, fmt.Sprintf("CSVProducer from %s: input %s options {%s}: the judged call wrote %s in %d writes; after %d later call(s) on other writers the same writer holds %s after %d writes", c.Kind, short([]byte(text)), c.Opts.set(), short(written), writes, c.Post, short(out()), w.writes), c)
 		return false
 	}
 	return true
 }
 
+// produceWriter builds the writer handed to Produce: w is the scripted sink (behind a *bufio.Writer for the bufio
+// kinds, unused for a *bytes.Buffer); bw is the caller's own buffering writer, which the caller flushes itself after
+// the call; out reads the bytes that arrived.
+func produceWriter(c *Case, w *sWriter) (wr io.Writer, bw *bufio.Writer, out func() []byte, ok bool) {
+	switch c.WK {
+	case "":
+		return w, nil, func() []byte { return w.buf }, true
+	case "bufio":
+		bw = bufio.NewWriterSize(w, 4096)
+		return bw, bw, func() []byte { return w.buf }, true
+	case "bufio16":
+		bw = bufio.NewWriterSize(w, 16)
+		return bw, bw, func() []byte { return w.buf }, true
+	case "bytes.Buffer":
+		b := &bytes.Buffer{}
+		return b, nil, b.Bytes, true
+	}
+	return nil, nil, nil, false
+}
+
+// inMemorySrcKinds are the sources the codec holds entirely in memory before it parses them: it can know that the
+// input is malformed before it writes anything.
+var inMemorySrcKinds = []string{"binm", "[]byte", "named-bytes", "*[]byte", "string", "named-string", "*string"}
+
 func runProduce(m *mon.M, c *Case) {
 	text := string(c.Text)
+	if c.WK == "nil" || isIn(srcNilKinds, c.Kind) {
+		runProduceNil(m, c)
+		return
+	}
 	ropts, judged := c.refOpts()
 	if !judged {
 		m.Class("not-judged:setting-made-on-the-object-and-named-by-a-codec-option")
@@ -1010,6 +1263,11 @@ func runProduce(m *mon.M, c *Case) {
 	}
 	applyObj(c, nil, s.csvr)
 	w := newWriter(c.S)
+	wr, bw, out, ok := produceWriter(c, w)
+	if !ok {
+		m.Violate("bad-replay-case", "unknown writer kind "+c.WK, c)
+		return
+	}
 	prod := runtime.CSVProducer(c.Opts.sut()...)
 	for i := 0; i < c.Warm; i++ {
 		if ws, ok := mkSource(c.Kind, []byte(text), copyRecs(recs), Script{}); ok {
@@ -1018,11 +1276,26 @@ func runProduce(m *mon.M, c *Case) {
 			m.Class("codec-instance-reused")
 		}
 	}
-	var err error
-	pv, st := mon.Catch(func() { err = prod.Produce(w, s.v) })
-	m.NT(c.fp(""))
 	sc := srcClass(c.Kind)
+	var join func() []compFinding
+	if c.Conc > 1 && !c.objBools() {
+		var release func()
+		release, join = produceCompanions(c, prod, ropts, recs, c.Conc-1)
+		release()
+	}
+	var err error
+	pv, st := mon.Catch(func() { err = prod.Produce(wr, s.v) })
+	m.NT(c.fp(""))
 	m.Class("produce/" + sc)
+	if c.WK != "" {
+		m.Class("produce/writer=" + c.WK)
+	}
+	if join != nil {
+		m.Class("concurrent-use/produce")
+		for _, f := range join() {
+			m.Violate("concurrent-use/produce/"+sc+"/"+f.kind, fmt.Sprintf("CSVProducer from %s, options {%s}, one codec instance used by %d goroutines at once (each with its own source and writer): %s", c.Kind, c.Opts.set(), c.Conc, f.detail), c)
+		}
+	}
 	if c.objSet() {
 		m.Class("produce/caller-configured-csv.Reader")
 	}
@@ -1037,12 +1310,29 @@ func runProduce(m *mon.M, c *Case) {
 		m.Violate("produce-panic/"+feat, fmt.Sprintf("CSVProducer from %s (%T) panicked: %v\ninput %s options {%s}\n%s", c.Kind, s.v, pv, short([]byte(text)), c.Opts.set(), st), c)
 		return
 	}
+	if bw != nil {
+		// the caller's own buffering writer: what the codec left in it is the caller's to flush (csv.NewWriter adopts
+		// a *bufio.Writer of 4096 bytes or more as its own buffer, which the codec's Flush then empties)
+		metDuringCall, arrived := w.errDelivered, len(w.buf)
+		_ = bw.Flush()
+		if len(w.buf) == arrived {
+			m.Class("produce/" + c.WK + "-writer/everything-flushed-by-the-codec")
+		} else {
+			m.Class("produce/" + c.WK + "-writer/bytes-left-in-the-callers-buffer")
+		}
+		if w.errDelivered && !metDuringCall {
+			// the sink failed under the caller's own Flush, after the call: the codec could not know
+			m.Class("sink-fault-met-by-the-callers-own-flush")
+			return
+		}
+	}
+	got := out()
 	noteClose(m, c, w.closes)
 	if c.Kind == "readcloser" && s.rd.closes == 0 {
 		m.Class("closable-source-not-closed")
 	}
 	if w.writesAfterClose > 0 {
-		m.Violate("stream-used-after-close/produce/writer", fmt.Sprintf("CSVProducer from %s, options {%s}: the writer was written to %d time(s) after the codec had closed it (err=%s, written %s)", c.Kind, c.Opts.set(), w.writesAfterClose, errText(err), short(w.buf)), c)
+		m.Violate("stream-used-after-close/produce/writer", fmt.Sprintf("CSVProducer from %s, options {%s}: the writer was written to %d time(s) after the codec had closed it (err=%s, written %s)", c.Kind, c.Opts.set(), w.writesAfterClose, errText(err), short(got)), c)
 		return
 	}
 	if s.rd != nil && s.rd.readsAfterClose > 0 {
@@ -1065,9 +1355,26 @@ func runProduce(m *mon.M, c *Case) {
 			if what == "source-read" && collab {
 				what, sig = "source's own (Read / MarshalBinary)", "collaborator-error-swallowed/produce/"+sc
 			}
-			m.Violate(sig, fmt.Sprintf("CSVProducer from %s: the scripted %s error was delivered and nil was returned (written %s)", c.Kind, what, short(w.buf)), c)
+			m.Violate(sig, fmt.Sprintf("CSVProducer from %s: the scripted %s error was delivered and nil was returned (written %s)", c.Kind, what, short(got)), c)
 		}
 		return
+	}
+	if c.objBools() {
+		m.Class("produce/caller-set-boolean-on-csv.Reader")
+		if s.csvr != nil {
+			if s.csvr.LazyQuotes != (c.Obj.Lazy || c.Opts.Lazy) {
+				m.Class("probe:caller-object-field-rewritten/csv.Reader.LazyQuotes")
+			}
+			if s.csvr.TrimLeadingSpace != (c.Obj.Trim || c.Opts.Trim) {
+				m.Class("probe:caller-object-field-rewritten/csv.Reader.TrimLeadingSpace")
+			}
+			if s.csvr.ReuseRecord != (c.Obj.Reuse || c.Opts.Reuse) {
+				m.Class("probe:caller-object-field-rewritten/csv.Reader.ReuseRecord")
+			}
+		}
+		if probeObjBools(m, c, ropts, got, err, "produce/csv.Reader") {
+			return
+		}
 	}
 	if writerOptionsInvalid(ropts) {
 		m.Class("writer-options-rejected-by-reference")
@@ -1078,13 +1385,13 @@ func runProduce(m *mon.M, c *Case) {
 		}
 		return
 	}
-	if !tableKind && produceIgnoresReaderOptions(rc, w.buf, err, recs, perr) {
+	if !tableKind && produceIgnoresReaderOptions(rc, got, err, recs, perr) {
 		sig := "reader-options-ignored/produce/" + sc
 		if c.objSet() {
 			// the settings the caller had made on its own *csv.Reader (no codec option names them) were replaced
 			sig = "caller-reader-settings-overridden/produce/" + sc
 		}
-		m.Violate(sig, fmt.Sprintf("CSVProducer from %s: input %s options {%s}: the outcome (err=%s, written %s) is what encoding/csv gives WITHOUT the reader options, not with them (with: err=%s)", c.Kind, short([]byte(text)), c.Opts.set(), errText(err), short(w.buf), errText(perr)), c)
+		m.Violate(sig, fmt.Sprintf("CSVProducer from %s: input %s options {%s}: the outcome (err=%s, written %s) is what encoding/csv gives WITHOUT the reader options, not with them (with: err=%s)", c.Kind, short([]byte(text)), c.Opts.set(), errText(err), short(got), errText(perr)), c)
 		return
 	}
 	if sc == "record-table-named-elements" && err != nil {
@@ -1094,12 +1401,24 @@ func runProduce(m *mon.M, c *Case) {
 	if perr != nil {
 		m.Class("malformed-input")
 		if err == nil {
-			m.Violate("malformed-accepted/produce/"+sc, fmt.Sprintf("CSVProducer from %s: input %s options {%s}: encoding/csv says %q, the producer returned nil (written %s)", c.Kind, short([]byte(text)), c.Opts.set(), perr, short(w.buf)), c)
+			m.Violate("malformed-accepted/produce/"+sc, fmt.Sprintf("CSVProducer from %s: input %s options {%s}: encoding/csv says %q, the producer returned nil (written %s)", c.Kind, short([]byte(text)), c.Opts.set(), perr, short(got)), c)
 		} else if err.Error() != perr.Error() {
 			if c.Kind == "writerto" {
 				m.Class("writer-to-pipe-error-instead-of-parser-error")
 			}
 			m.Violate("not-the-parser-error/produce/"+sc, fmt.Sprintf("CSVProducer from %s: input %s options {%s}: encoding/csv says %q, the producer says %q", c.Kind, short([]byte(text)), c.Opts.set(), perr, err), c)
+		} else if same, why := sameParserError(err, perr); !same {
+			// the text of the parser's error, but not the parser's error: callers tell it with errors.As / errors.Is
+			m.Violate("parser-error-identity-lost/produce/"+sc, fmt.Sprintf("CSVProducer from %s: input %s options {%s}: the error reads %q like the parser's, but %s", c.Kind, short([]byte(text)), c.Opts.set(), err, why), c)
+		} else if len(got) > 0 || w.writes > 0 {
+			if isIn(inMemorySrcKinds, c.Kind) {
+				// "the parser's error instead of partial success": a source the codec holds in memory as a whole is known
+				// to be malformed before the first byte is written; a well-formed prefix next to the error is a partial success
+				m.Violate("partial-output-on-error/produce/"+sc, fmt.Sprintf("CSVProducer from %s: input %s options {%s}: the parser's error %q was returned, and the writer had received %s in %d write(s)", c.Kind, short([]byte(text)), c.Opts.set(), err, short(got), w.writes), c)
+			} else {
+				// a streaming source: the records before the malformed one were necessarily on their way
+				m.Class("output-before-the-parser-error/streaming-source")
+			}
 		}
 		return
 	}
@@ -1115,7 +1434,7 @@ func runProduce(m *mon.M, c *Case) {
 		m.Violate("spurious-error/produce/"+sc, fmt.Sprintf("CSVProducer from %s: well-formed input %s options {%s} rejected: %v", c.Kind, short([]byte(text)), c.Opts.set(), err), c)
 		return
 	}
-	if !bytes.Equal(w.buf, wantBytes) {
+	if !bytes.Equal(got, wantBytes) {
 		var nodef [][]string
 		var nderr error
 		if tableKind {
@@ -1124,17 +1443,255 @@ func runProduce(m *mon.M, c *Case) {
 			nodef, nderr = refParse(text, ropts, false)
 			nodef = skipRecs(nodef, c.Opts.Skip)
 		}
-		feat := explainBytes(rc, w.buf, wantBytes, want, nodef, nderr == nil)
+		feat := explainBytes(rc, got, wantBytes, want, nodef, nderr == nil)
 		if tableKind && len(c.Table) > 0 {
 			feat = "nil-or-empty-records"
 		}
-		m.Violate("bytes-mismatch/produce/"+sc+"/"+feat, fmt.Sprintf("CSVProducer from %s: input %s options {%s}\n written  %s\n expected %s", c.Kind, short([]byte(text)), c.Opts.set(), short(w.buf), short(wantBytes)), c)
+		m.Violate("bytes-mismatch/produce/"+sc+"/"+feat, fmt.Sprintf("CSVProducer from %s: input %s options {%s}\n written  %s\n expected %s", c.Kind, short([]byte(text)), c.Opts.set(), short(got), short(wantBytes)), c)
 		return
 	}
-	if !laterProduces(m, c, prod, w, recs, sc) {
+	if !laterProduces(m, c, prod, w, out, recs, sc) {
 		return
 	}
 	m.Class("bytes-ok")
+}
+
+// ---- one codec instance used by several goroutines ----
+
+// compFinding is what one of the other goroutines saw go wrong.
+type compFinding struct{ kind, detail string }
+
+const companionRounds = 2
+
+// companionText is the text goroutine number i works with: the judged text, or the same structure in other letters.
+func companionText(text string, i int) string {
+	if i%2 == 1 {
+		return laterText(text)
+	}
+	return text
+}
+
+func companions(n int, work func(i int) *compFinding) (release func(), join func() []compFinding) {
+	start := make(chan struct{})
+	var wg sync.WaitGroup
+	res := make([]*compFinding, n)
+	for i := 0; i < n; i++ {
+		wg.Add(1)
+		go func(i int) {
+			defer wg.Done()
+			<-start
+			for round := 0; round < companionRounds && res[i] == nil; round++ {
+				res[i] = work(i + 1)
+			}
+		}(i)
+	}
+	return func() { close(start) }, func() []compFinding {
+		wg.Wait() // a join, no clock
+		var out []compFinding
+		for _, f := range res {
+			if f != nil {
+				out = append(out, *f)
+			}
+		}
+		return out
+	}
+}
+
+// consumeCompanions starts n goroutines that consume, on the SAME codec instance, their own text from their own
+// plain reader into their own fresh destination of the case's kind, and judge what they got against the reference
+// parse of THEIR text (a reduced oracle: outcome class, error text, records or bytes).
+func consumeCompanions(c *Case, cons runtime.Consumer, ropts Opts, n int) (release func(), join func() []compFinding) {
+	return companions(n, func(i int) *compFinding {
+		text := companionText(string(c.Text), i)
+		d, ok := mkDest(c.Kind, 0, 0, "", false, Script{})
+		if !ok {
+			return nil
+		}
+		applyObj(c, d.csvw, nil)
+		var err error
+		pv, st := mon.Catch(func() { err = cons.Consume(newReader([]byte(text), Script{}), d.v) })
+		if pv != nil {
+			return &compFinding{"panic", fmt.Sprintf("goroutine %d panicked: %v\n%s", i, pv, st)}
+		}
+		recs, perr := refParse(text, ropts, true)
+		want := skipRecs(recs, c.Opts.Skip)
+		if destClass(c.Kind) == "record-table-named-elements" && err != nil {
+			return nil // a kind the codec does not document may be refused
+		}
+		var got []byte
+		if d.bytes != nil {
+			got = d.bytes()
+			return judgeCompanionBytes(i, text, ropts, c.Opts.Skip, got, err)
+		}
+		if d.records == nil {
+			return nil
+		}
+		switch {
+		case perr != nil && err == nil:
+			return &compFinding{"malformed-accepted", fmt.Sprintf("goroutine %d: input %s: encoding/csv says %q, nil returned", i, short([]byte(text)), perr)}
+		case perr != nil && err.Error() != perr.Error():
+			return &compFinding{"not-the-parser-error", fmt.Sprintf("goroutine %d: input %s: encoding/csv says %q, the consumer says %q", i, short([]byte(text)), perr, err)}
+		case perr != nil:
+			return nil
+		case err != nil:
+			return &compFinding{"spurious-error", fmt.Sprintf("goroutine %d: well-formed input %s rejected: %v", i, short([]byte(text)), err)}
+		case c.Kind == "csvwriter-retaining" && c.Opts.Reuse:
+			return nil
+		case !sameRecords(d.records(), want):
+			return &compFinding{"records-mismatch", fmt.Sprintf("goroutine %d: input %s\n delivered %s\n expected  %s", i, short([]byte(text)), shortRecs(d.records()), shortRecs(want))}
+		}
+		return nil
+	})
+}
+
+func judgeCompanionBytes(i int, text string, ropts Opts, skip int, got []byte, err error) *compFinding {
+	exp := refOutcome(text, ropts, skip)
+	if exp.kind == "any-error" && err == nil {
+		// invalid writer options: an error is owed as soon as there is a record to write or the input is malformed
+		// (with nothing to write the reference writer never looks at its options)
+		if recs, perr := refParse(text, ropts, true); perr == nil && len(skipRecs(recs, skip)) == 0 {
+			return nil
+		}
+	}
+	if exp.matches(got, err) {
+		return nil
+	}
+	kind := "bytes-mismatch"
+	if exp.kind != "bytes" || err != nil {
+		kind = "error-mismatch"
+	}
+	return &compFinding{kind, fmt.Sprintf("goroutine %d: input %s: got err=%s and bytes %s, expected %s", i, short([]byte(text)), errText(err), short(got), exp)}
+}
+
+// produceCompanions: the same for the producer; record-table kinds hand over the parse of their text (the judged
+// call's table when their own text does not parse or the case carries a table no parse yields).
+func produceCompanions(c *Case, prod runtime.Producer, ropts Opts, recs [][]string, n int) (release func(), join func() []compFinding) {
+	tableKind := isIn(srcTableKinds, c.Kind)
+	return companions(n, func(i int) *compFinding {
+		text := companionText(string(c.Text), i)
+		table := recs
+		var exp outcome
+		if tableKind {
+			if own, perr := refParse(text, ropts, true); perr == nil && len(c.Table) == 0 {
+				table = own
+			}
+			b, werr := refWrite(skipRecs(table, c.Opts.Skip), ropts, true)
+			exp = outcome{kind: "bytes", b: b}
+			if werr != nil {
+				exp = outcome{kind: "any-error"}
+			}
+		} else {
+			exp = refOutcome(text, ropts, c.Opts.Skip)
+		}
+		s, ok := mkSource(c.Kind, []byte(text), copyRecs(table), Script{})
+		if !ok {
+			return nil
+		}
+		applyObj(c, nil, s.csvr)
+		w := newWriter(Script{})
+		var err error
+		pv, st := mon.Catch(func() { err = prod.Produce(w, s.v) })
+		if pv != nil {
+			return &compFinding{"panic", fmt.Sprintf("goroutine %d panicked: %v\n%s", i, pv, st)}
+		}
+		if srcClass(c.Kind) == "record-table-named-elements" && err != nil {
+			return nil
+		}
+		if exp.kind == "any-error" && err == nil {
+			if tableKind && len(skipRecs(table, c.Opts.Skip)) == 0 {
+				return nil
+			}
+			if rr, perr := refParse(text, ropts, true); !tableKind && perr == nil && len(skipRecs(rr, c.Opts.Skip)) == 0 {
+				return nil
+			}
+		}
+		if exp.matches(w.buf, err) {
+			return nil
+		}
+		kind := "bytes-mismatch"
+		if exp.kind != "bytes" || err != nil {
+			kind = "error-mismatch"
+		}
+		return &compFinding{kind, fmt.Sprintf("goroutine %d: input %s: got err=%s and bytes %s, expected %s", i, short([]byte(text)), errText(err), short(w.buf), exp)}
+	})
+}
+
+// ---- no reader, no writer, no data ----
+
+// runConsumeNilReader: Consume is handed no reader at all. Nothing can be parsed: an error is owed, not a panic and
+// not a success, and the destination keeps what it held.
+func runConsumeNilReader(m *mon.M, c *Case) {
+	d, ok := mkDest(c.Kind, c.PreLen, c.PreCap, c.PreText, c.PreNil, Script{})
+	if !ok {
+		m.Violate("bad-replay-case", "unknown destination kind "+c.Kind, c)
+		return
+	}
+	before := snapshot(d)
+	cons := runtime.CSVConsumer(c.Opts.sut()...)
+	var err error
+	pv, st := mon.Catch(func() { err = cons.Consume(nil, d.v) })
+	m.NT(c.fp("nil-reader"))
+	m.Class("consume/nil-reader")
+	switch {
+	case pv != nil:
+		m.Violate("consume-panic/nil-reader", fmt.Sprintf("CSVConsumer with a nil reader into %s (%T) panicked: %v\noptions {%s}\n%s", c.Kind, d.v, pv, c.Opts.set(), st), c)
+	case err == nil:
+		m.Violate("nil-reader-accepted/consume", fmt.Sprintf("CSVConsumer with a nil reader into %s (%T), options {%s}: nil returned, although there is nothing to parse", c.Kind, d.v, c.Opts.set()), c)
+	case (d.records != nil || d.bytes != nil) && !before.same(d):
+		m.Violate("destination-altered-without-input/consume/nil-reader", fmt.Sprintf("CSVConsumer with a nil reader into %s: error %q returned, and the destination, which held %s, now holds %s", c.Kind, err, before, snapshot(d)), c)
+	default:
+		m.Class("nil-reader-rejected")
+	}
+}
+
+// runProduceNil: Produce is handed no writer, or no data, or the typed-nil pointer of a pointer source kind.
+func runProduceNil(m *mon.M, c *Case) {
+	text := string(c.Text)
+	recs, perr := refParse(text, c.Opts, true)
+	if perr != nil {
+		recs = nil
+	}
+	s, ok := mkSource(c.Kind, []byte(text), copyRecs(recs), Script{})
+	if !ok {
+		m.Violate("bad-replay-case", "unknown source kind "+c.Kind, c)
+		return
+	}
+	w := newWriter(Script{})
+	var wr io.Writer = w
+	what := "nil-data"
+	switch {
+	case c.WK == "nil":
+		wr, what = nil, "nil-writer"
+	case c.Kind != "nil":
+		what = "typed-nil-source"
+	}
+	prod := runtime.CSVProducer(c.Opts.sut()...)
+	var err error
+	pv, st := mon.Catch(func() { err = prod.Produce(wr, s.v) })
+	m.NT(c.fp(what))
+	m.Class("produce/" + what)
+	if what == "typed-nil-source" {
+		// not in the statement's no-panic clause (destination state and options): probed and classed for triage
+		switch {
+		case pv != nil:
+			m.Class("probe:typed-nil-source/" + c.Kind + "/PANIC")
+		case err != nil:
+			m.Class("probe:typed-nil-source/" + c.Kind + "/rejected")
+		default:
+			m.Class("probe:typed-nil-source/" + c.Kind + "/nil-returned")
+		}
+		return
+	}
+	switch {
+	case pv != nil:
+		m.Violate("produce-panic/"+what, fmt.Sprintf("CSVProducer (%s) from %s (%T) panicked: %v\noptions {%s}\n%s", what, c.Kind, s.v, pv, c.Opts.set(), st), c)
+	case err == nil:
+		m.Violate(what+"-accepted/produce", fmt.Sprintf("CSVProducer (%s) from %s (%T), options {%s}: nil returned, although nothing can have been written", what, c.Kind, s.v, c.Opts.set()), c)
+	case len(w.buf) > 0 || w.writes > 0:
+		m.Violate("output-without-input/produce/"+what, fmt.Sprintf("CSVProducer (%s): error %q returned, and the writer received %s", what, err, short(w.buf)), c)
+	default:
+		m.Class(what + "-rejected")
+	}
 }
 
 // applyObj makes the caller's own settings on the object it hands over (before the call).
@@ -1145,7 +1702,19 @@ func applyObj(c *Case, w *csv.Writer, r *csv.Reader) {
 	if w != nil && c.Obj.Comma != "" {
 		w.Comma = r1(c.Obj.Comma)
 	}
+	if w != nil && c.Obj.CRLF {
+		w.UseCRLF = true
+	}
 	if r != nil {
+		if c.Obj.Lazy {
+			r.LazyQuotes = true
+		}
+		if c.Obj.Trim {
+			r.TrimLeadingSpace = true
+		}
+		if c.Obj.Reuse {
+			r.ReuseRecord = true
+		}
 		if c.Obj.Comma != "" {
 			r.Comma = r1(c.Obj.Comma)
 		}
